@@ -584,6 +584,23 @@ pub(crate) fn allocate_registers(ops: &[Op]) -> Result<Vec<AllocatedAbstractOp>,
         // Step 1: Liveness Analysis.
         let live_out = liveness_analysis(ops, true);
 
+        // Verification hook H3: `SWAY_VERIF_NO_COALESCE` colours the uncoalesced graph.
+        #[cfg(fuellabs_sway_verif)]
+        if std::env::var_os("SWAY_VERIF_NO_COALESCE").is_some() {
+            let (mut interference_graph, _) = create_interference_graph(ops, &live_out);
+            return match color_interference_graph(&mut interference_graph, ops, &live_out) {
+                Ok(colouring_stack) => ColouringResult::Success {
+                    updated_ops: ops.to_vec(),
+                    interference_graph,
+                    colouring_stack,
+                },
+                Err(spills) => ColouringResult::SpillsNeeded {
+                    updated_ops: ops.to_vec(),
+                    spills,
+                },
+            };
+        }
+
         // Step 2: Construct the interference graph.
         let (mut interference_graph, mut reg_to_node_ix) =
             create_interference_graph(ops, &live_out);
@@ -613,6 +630,15 @@ pub(crate) fn allocate_registers(ops: &[Op]) -> Result<Vec<AllocatedAbstractOp>,
     let mut updated_ops;
     // How many times to try spilling before we give up.
     let mut try_count = 0;
+    // Verification hook H3: `SWAY_VERIF_FORCE_SPILL=<m>,<r>` spills, before the first colouring
+    // attempt, every m-th virtual register (ordinal r modulo m) through the real `spill()`.
+    #[cfg(fuellabs_sway_verif)]
+    let verif_forced_ops;
+    #[cfg(fuellabs_sway_verif)]
+    if let Some(forced) = verif_forced_spills(ops) {
+        verif_forced_ops = spill(ops, &forced);
+        updated_ops_ref = &verif_forced_ops;
+    }
     // Try and assign registers. If we fail, spill. Repeat few times.
     let (updated_ops, interference_graph, mut stack) = loop {
         match try_color(updated_ops_ref) {
@@ -936,6 +962,57 @@ fn spill(ops: &[Op], spills: &FxHashSet<VirtualRegister>) -> Vec<Op> {
     }
 
     spilled
+}
+
+/// Verification hook H3: select the virtual registers to spill up front. Only functions with
+/// exactly one `CFEI` are touched, and only registers that are defined and used strictly between the
+/// frame extension and the frame shrink (so that `$$locbase` is valid wherever they are touched).
+#[cfg(fuellabs_sway_verif)]
+fn verif_forced_spills(ops: &[Op]) -> Option<FxHashSet<VirtualRegister>> {
+    let spec = std::env::var("SWAY_VERIF_FORCE_SPILL").ok()?;
+    let (m, r) = spec.split_once(',')?;
+    let (m, r): (usize, usize) = (m.trim().parse().ok()?, r.trim().parse().ok()?);
+    if m == 0 {
+        return None;
+    }
+    let cfe: Vec<usize> = ops
+        .iter()
+        .enumerate()
+        .filter_map(|(i, op)| matches!(op.opcode, Either::Left(VirtualOp::CFEI(..))).then_some(i))
+        .collect();
+    let cfs: Vec<usize> = ops
+        .iter()
+        .enumerate()
+        .filter_map(|(i, op)| matches!(op.opcode, Either::Left(VirtualOp::CFSI(..))).then_some(i))
+        .collect();
+    if cfe.len() != 1 || cfs.len() > 1 {
+        return None;
+    }
+    let lo = cfe[0];
+    let hi = cfs.first().copied().unwrap_or(ops.len());
+    let mut inside = BTreeSet::new();
+    let mut outside = BTreeSet::new();
+    for (i, op) in ops.iter().enumerate() {
+        for reg in op.registers() {
+            if reg.is_virtual() {
+                if i > lo && i < hi {
+                    inside.insert(reg.clone());
+                } else {
+                    outside.insert(reg.clone());
+                }
+            }
+        }
+    }
+    let forced: FxHashSet<VirtualRegister> = inside
+        .difference(&outside)
+        .enumerate()
+        .filter_map(|(i, reg)| (i % m == r % m).then(|| reg.clone()))
+        .collect();
+    if forced.is_empty() {
+        None
+    } else {
+        Some(forced)
+    }
 }
 
 fn spill_offsets(
